@@ -34,7 +34,7 @@ import (
 )
 
 const blockGrace = 3 * time.Millisecond // a sequential GetOrSet that has released the limiter (it is about to wait) and has not returned by then is "blocked"
-const wakeTimeout = 10 * time.Second        // a waiter whose key has been added must have proceeded by then
+const wakeTimeout = 10 * time.Second    // a waiter whose key has been added must have proceeded by then
 
 // ---------------------------------------------------------------------------------------------
 // operations and observations
@@ -47,11 +47,11 @@ type Op struct {
 }
 
 type Res struct {
-	B       bool   `json:"b,omitempty"`      // add: inserted; addorget: inserted; contains; getorwait: first; getorset: f called
-	V       int    `json:"v,omitempty"`      // value
-	E       int    `json:"e,omitempty"`      // error code
-	Ch      int    `json:"ch"`               // observed channel number, -1 = nil
-	Vals    []int  `json:"vals,omitempty"`   // values (sorted)
+	B       bool   `json:"b,omitempty"`    // add: inserted; addorget: inserted; contains; getorwait: first; getorset: f called
+	V       int    `json:"v,omitempty"`    // value
+	E       int    `json:"e,omitempty"`    // error code
+	Ch      int    `json:"ch"`             // observed channel number, -1 = nil
+	Vals    []int  `json:"vals,omitempty"` // values (sorted)
 	Blocked bool   `json:"blocked,omitempty"`
 	Closed  []bool `json:"closed,omitempty"` // after the operation: is channel i closed
 }
@@ -1112,7 +1112,7 @@ func stampedeWait(c *lib.Ctx, r *lib.Rng) {
 			break
 		}
 	}
-	m.Add(8, 1) // another key, same shard when nsh == 1 or 4 (8 & 3 == 0 != 7 & 3: different shard), must wake nobody
+	m.Add(8, 1)  // another key, same shard when nsh == 1 or 4 (8 & 3 == 0 != 7 & 3: different shard), must wake nobody
 	m.Set(11, 1) // 11 & 3 == 3 == 7 & 3: same shard
 	for i := 0; i < 30; i++ {
 		runtime.Gosched()
@@ -1278,19 +1278,19 @@ func main() {
 		for _, sc := range adversarialSeq() {
 			doSeq(c, sc)
 		}
-		for i, n := 0, c.Scale(700, 12000); i < n; i++ {
+		for i, n := 0, c.Scale(450, 12000); i < n; i++ {
 			doSeq(c, genSeq(c.Rng.Fork()))
 		}
 		// 2. sequential ErrMap (a few with waiting GetOrSet calls: each costs blockGrace)
 		doErrSeq(c, &SeqCase{Kind: "errseq", Nsh: 4, Hash: []uint64{0, 1}, Ops: []Op{{Op: "get", K: 0}, {Op: "getorset", K: 0, V: 3}}})
 		doErrSeq(c, &SeqCase{Kind: "errseq", Nsh: 1, Hash: []uint64{0, 1}, Ops: []Op{{Op: "getorset", K: 0, V: 3, E: 2}, {Op: "getorset", K: 0, V: 4}, {Op: "get", K: 0}, {Op: "seterror", K: 1, E: 1}, {Op: "getorset", K: 1, V: 2}}})
 		nblock := c.Scale(25, 300)
-		for i, n := 0, c.Scale(300, 6000); i < n; i++ {
+		for i, n := 0, c.Scale(200, 6000); i < n; i++ {
 			doErrSeq(c, genErrSeq(c.Rng.Fork(), i < nblock))
 		}
 		t1 := time.Now()
 		// 3. concurrent histories
-		nconc, nlin := c.Scale(2500, 60000), c.Scale(350, 6000)
+		nconc, nlin := c.Scale(1500, 60000), c.Scale(140, 6000)
 		emitted := 0
 		for i := 0; i < nconc; i++ {
 			r := c.Rng.Fork()
@@ -1336,7 +1336,6 @@ func main() {
 			stampedeWait(c, c.Rng.Fork())
 			stampedeGetOrSet(c, c.Rng.Fork())
 		}
-		c.Note("run %s lin %s", tRun, tLin)
 		c.Note("wall: concurrent histories %s, stampedes %s", t2.Sub(t1).Round(time.Millisecond), time.Since(t2).Round(time.Millisecond))
 		c.Note("GOMAXPROCS=%d; blockGrace=%s; linearisations replayed through the Coq model and specification: %d", runtime.GOMAXPROCS(0), blockGrace, emitted)
 	})
